@@ -614,6 +614,25 @@ int main(int argc, char **argv) {
     if (a.mode.compare(0, 3, "kf-") == 0) {
         if (a.want(0)) {
             vh::beginCase(0, a.mode.c_str());
+#ifdef HAVE_C15_LIBS
+            // known-finding classes of the other four libraries (harness/c15_libs.h)
+            struct { const char *mode; void (*fn)(void); } libKf[] = {
+                {"kf-dialect-faces-negative-x-assert", c15::kf_dialect_faces_negative_x_assert},
+                {"kf-dialect-hola-leak", c15::kf_dialect_hola_leak},
+                {"kf-dialect-peel-edgeless", c15::kf_dialect_peel_edgeless},
+                {"kf-cola-cml-rerun-leak", c15::kf_cola_cml_rerun_leak},
+                {"kf-cola-cml-unsatinfo-leak", c15::kf_cola_cml_unsatinfo_leak},
+                {"kf-cola-unsatinfo-internal-cc-uaf", c15::kf_cola_unsatinfo_internal_cc_uaf},
+                {"kf-cola-unsatinfo-alignment-var-uaf", c15::kf_cola_unsatinfo_alignment_var_uaf},
+                {"kf-cola-makefeasible-hang", c15::kf_cola_makefeasible_hang},
+                {"kf-vpsc-addconstraint-oob", c15::kf_vpsc_addconstraint_oob},
+                {"kf-vpsc-static-cycle-leak", c15::kf_vpsc_static_cycle_leak},
+                {"kf-topology-endnode-visibility-assert", c15::kf_topology_endnode_visibility_assert}};
+            bool isLib = false;
+            for (size_t i = 0; i < sizeof(libKf) / sizeof(libKf[0]); ++i)
+                if (a.mode == libKf[i].mode) { isLib = true; libKf[i].fn(); }
+            if (isLib) { leakCheck(a.mode.c_str()); vh::endCase(); return 0; }
+#endif
             if (a.mode == "kf-hyperedge-mtst-assert") {
                 // K13: replay of a generated history (seed 9, case 88, quick) with hyperedge registration enabled:
                 // mtst.cpp:816 COLA_ASSERT(origTerminals.size() == 1)
